@@ -285,10 +285,16 @@ fn probes() -> Vec<Node> {
 /// document: <r xmlns:z="uz"><m> T(probes inside) probes-after </m></r>, T as generated
 pub fn document(t: El) -> Node {
     let mut t = t;
-    let form = t.form;
-    if form != 1 {
+    if t.form != 1 {
         t.children.extend(probes());
     }
+    // forms 5/6: T ends with a child that is still open when T is closed (by its own end tag / by
+    // the parent's), so one end tag closes several elements and must end several scopes
+    if t.form >= 5 {
+        t.children.push(Node::El(El { prefix: None, local: "u", items: vec![], children: vec![probes()[0].clone()], form: 4 }));
+        t.form = if t.form == 5 { 0 } else { 3 };
+    }
+    let form = t.form;
     let mut m_children = vec![Node::El(t)];
     let mut r_children = vec![];
     if form == 3 {
@@ -384,7 +390,7 @@ pub fn gen_job_a(tier: Tier) -> Vec<El> {
             let orders = if items.len() <= tier.pick(4, 5) { permutations(&items) } else { vec![items.clone(), items.iter().rev().cloned().collect()] };
             for ord in orders {
                 for (ni, (p, l)) in names.iter().enumerate() {
-                    for form in [0u8, 1, 2, 3, 4] {
+                    for form in [0u8, 1, 2, 3, 4, 5, 6] {
                         if ni > 1 && form > 1 && tier == Tier::Quick && items_len_gt3(&ord) {
                             continue;
                         }
@@ -413,6 +419,14 @@ pub fn gen_job_b(tier: Tier) -> Vec<El> {
                             ch.extend(probes());
                         }
                         out.push(El { prefix: p1, local: l1, items: d1.clone(), children: ch, form: if form == 4 { 4 } else { 0 } });
+                        // the outer end tag closes u, the inner (declaring) element and the outer one; the
+                        // end tag is looked up in the innermost scope, so skip inner declarations of the outer's own prefix
+                        if form == 0 && !d2.iter().any(|it| matches!(it, Item::Decl(t, _) if *t == p1)) {
+                            let mut ich = probes();
+                            ich.push(Node::El(El { prefix: None, local: "u", items: vec![], children: vec![probes()[0].clone()], form: 4 }));
+                            let inner = El { prefix: p2, local: l2, items: d2.clone(), children: ich, form: 4 };
+                            out.push(El { prefix: p1, local: l1, items: d1.clone(), children: vec![Node::El(inner)], form: 0 });
+                        }
                         if tier == Tier::Thorough && form == 0 && d2.len() <= 1 {
                             // third level re-declaring / un-declaring
                             for d3 in ds.iter().filter(|d| d.len() == 1) {
@@ -478,7 +492,7 @@ pub fn main(ctx: &Ctx, c17: bool) -> ! {
     if c17 {
         nvals = value_sweep(ctx, &st, ctx.tier);
     }
-    ctx.assume("names {a, p:a, q:a, script}; declarations subsets (<=2) of {xmlns=u1, xmlns='', xmlns:p=u1|u2|'', xmlns:q=u1, xmlns:xml=<xml uri>|u9}; attributes subsets of {x, p:x, q:x, xml:lang, z:x, p:xmlns, u:y}; every order of the items of a tag; tag forms start..end, empty, short end tag, closed by the parent's end tag, unclosed at EOF; probes using every prefix inside and after the element");
+    ctx.assume("names {a, p:a, q:a, script}; declarations subsets (<=2) of {xmlns=u1, xmlns='', xmlns:p=u1|u2|'', xmlns:q=u1, xmlns:xml=<xml uri>|u9}; attributes subsets of {x, p:x, q:x, xml:lang, z:x, p:xmlns, u:y}; every order of the items of a tag; tag forms start..end, empty, short end tag, closed by the parent's end tag, unclosed at EOF, and end tags that close several open elements at once (declarations on the named, an intermediate or the innermost element); probes using every prefix inside and after the element");
     if c17 {
         ctx.assume("the first parse is the specification of the second (no model); doctype ids excluded; text/attribute/comment/PI strings over a 12-symbol alphabet up to length 3");
     } else {
